@@ -36,8 +36,8 @@ def ref_tree_bytes(entries, key="md5"):
     """entries: {relpath 'a/b': oid}. The stored listing format, written by hand."""
     items = []
     for rel in sorted(entries):
-        items.append("{" + _jstr(key) + ": " + _jstr(entries[rel]) + ", "
-                     + _jstr("relpath") + ": " + _jstr(rel) + "}")
+        pairs = sorted([(key, entries[rel]), ("relpath", rel)])  # keys appear in sorted order
+        items.append("{" + ", ".join(_jstr(k) + ": " + _jstr(v) for k, v in pairs) + "}")
     return ("[" + ", ".join(items) + "]").encode("utf-8")
 
 
